@@ -63,6 +63,11 @@ PROP_MODULES.append("WV.Props.C13_Wire")
 # translator section `extract_c13_wire`, see agents/sC13_integration.md)
 if "extract_c13_wire" in open(_EXTRACT).read():
     PROP_MODULES.append("WV.Props.C13_PyIR")
+# translation validation of the SubChannel outputs/helpers, SubchannelDemultiplex and the Manager forwarders (needs the
+# translator section `extract_pyir_sub` and the Props file, see agents/deepSub_integration.md)
+if "extract_pyir_sub" in open(_EXTRACT).read() and _os.path.exists(_os.path.join(
+        _os.path.dirname(_EXTRACT), "..", "lean", "WV", "Props", "PyIRSub_C13.lean")):
+    PROP_MODULES.append("WV.Props.PyIRSub_C13")
 TRUSTED = ["L4 record delivery between the two Managers is exactly-once and in order (C10); the harness pipe is a FIFO "
            "(a re-sent old record is an explicit `dup` operation)",
            "TCP/hints/Noise: Connector.start() is a no-op, the harness creates the one negotiated link per generation "
